@@ -36,13 +36,6 @@ Inductive tid : Type :=
 | EkComplete (h : Z) | EkMinimal (h : Z)
 | TiDefault.
 
-(* todo!() sites of is_assignable_from_w_type_consistency (source lines) *)
-Definition P_TID_NONE : Z := 2441.
-Definition P_TID_MAPS : Z := 2620.
-Definition P_TID_MAPL : Z := 2621.
-Definition P_TID_SCC : Z := 2622.
-Definition P_TID_DEFAULT : Z := 2649.
-
 Definition is_ek (t : tid) : bool :=
   match t with EkComplete _ | EkMinimal _ => true | _ => false end.
 (* the integer kinds listed in the EkComplete / EkMinimal arms (2623-2648) *)
@@ -65,7 +58,7 @@ Fixpoint list_z_eqb (a b : list Z) : bool :=
 (* TypeIdentifier::is_assignable_from_w_type_consistency: self = t1, other = t2 *)
 Fixpoint tid_assignable (tc : tce) (t1 t2 : tid) {struct t1} : res bool :=
   match t1 with
-  | TkNone => Panic P_TID_NONE
+  | TkNone => Ok false        (* identifiers the code cannot compare are not assignable (abb552f) *)
   | TkBoolean => Ok (match t2 with TkBoolean => true | _ => false end)
   | TkByte => Ok (match t2 with TkByte => true | _ => is_ek t2 end)
   | TkInt8 => Ok (match t2 with TkInt8 => true | _ => is_ek t2 end)
@@ -108,12 +101,12 @@ Fixpoint tid_assignable (tc : tce) (t1 t2 : tid) {struct t1} : res bool :=
     | TiArrLarge bs2 e2 => if list_z_eqb bs1 bs2 then tid_assignable tc e1 e2 else Ok false
     | _ => Ok false
     end
-  | TiMapSmall => Panic P_TID_MAPS
-  | TiMapLarge => Panic P_TID_MAPL
-  | TiScc => Panic P_TID_SCC
+  | TiMapSmall => Ok false
+  | TiMapLarge => Ok false
+  | TiScc => Ok false
   | EkComplete _ => Ok (match t2 with EkComplete _ => true | _ => is_int_tid t2 end)
   | EkMinimal _ => Ok (match t2 with EkMinimal _ => true | _ => is_int_tid t2 end)
-  | TiDefault => Panic P_TID_DEFAULT
+  | TiDefault => Ok false
   end.
 
 (* derived PartialEq of TypeIdentifier *)
